@@ -176,6 +176,16 @@ class ConstVelEdge(_Custom):
         return [2] if model.kind(self.vertices[0].pose) == "se2" else []
 
 
+class RobustPositionPrior(PositionPriorEdge):
+    """A position prior with a user-defined (Huber-like) chi2: calc_chi2 is overridden, as the documentation of BaseEdge allows."""
+
+    NAME = "robustprior"
+
+    def calc_chi2(self):
+        q = float(PositionPriorEdge.calc_chi2(self))
+        return q if q <= 1.0 else 2.0 * q ** 0.5 - 1.0
+
+
 class FaultyPositionPrior(PositionPriorEdge):
     """A position prior whose error function raises on its k-th evaluation (fault injected inside an edge, i.e. mid-assembly)."""
 
@@ -190,7 +200,7 @@ class FaultyPositionPrior(PositionPriorEdge):
         return PositionPriorEdge.calc_error(self)
 
 
-TYPES = {c.NAME: c for c in (PriorEdge, PositionPriorEdge, DistanceEdge, RangeEdge, RelPoseEdge, MidpointEdge, ConstVelEdge, FaultyPositionPrior)}
+TYPES = {c.NAME: c for c in (PriorEdge, PositionPriorEdge, DistanceEdge, RangeEdge, RelPoseEdge, MidpointEdge, ConstVelEdge, FaultyPositionPrior, RobustPositionPrior)}
 
 
 def make(e, info):
